@@ -434,6 +434,28 @@ fn odd_repositories() -> Vec<(&'static str, std::path::PathBuf)> {
     let d = fresh("conflict");
     git(&d, &["checkout", "-q", "-b", "side", "HEAD~1"]); std::fs::write(d.join("f.txt"), "3\n").unwrap(); git(&d, &["commit", "-q", "-am", "side"]);
     git(&d, &["checkout", "-q", "main"]); git(&d, &["merge", "-q", "side"]); v.push(("unfinished-merge", d));
+    // healthy repositories whose CONTENT is hostile: what git prints about them is long and not ASCII
+    // (tag lists, branch names, file names) - four variants shifted by one byte each, so that any fixed
+    // byte position falls inside a multi-byte character in one of them
+    for (k, name) in ["non-ascii-refs-0", "non-ascii-refs-1", "non-ascii-refs-2", "non-ascii-refs-3"].into_iter().enumerate() {
+        let d = fresh(name);
+        let pad = "a".repeat(k);
+        git(&d, &["checkout", "-q", "-b", &format!("{pad}機能/とても長いブランチ名-{}-😀", "ブランチ".repeat(20))]);
+        for t in ["リリース候補", "日本語のタグ", "v2.0.0-ベータ", "émoji-😀😀😀", "ταγ", "метка-выпуска"] {
+            git(&d, &["tag", &format!("{pad}{t}")]);
+        }
+        git(&d, &["tag", "v1.3.0"]);
+        git(&d, &["tag", "-a", "v1.3.1", "-m", "annotated: リリース 😀"]);
+        std::fs::write(d.join(format!("{pad}未追跡ファイル-😀.txt")), "u\n").unwrap();
+        v.push((name, d));
+    }
+    // a long history: the tag is 300 commits back and most commits carry a non-version tag
+    let d = fresh("long-history");
+    for i in 0..300 {
+        git(&d, &["commit", "-q", "--allow-empty", "-m", &format!("c{i}")]);
+        if i % 3 != 0 { git(&d, &["tag", &format!("build/{i}")]); }
+    }
+    v.push(("long-history", d));
     // -C names a file
     std::fs::write(base.join("plainfile"), "x").unwrap(); v.push(("not-a-directory", base.join("plainfile")));
     // a work tree that is a sub-directory of a repository whose root is not readable as a repository any more
@@ -467,8 +489,9 @@ pub fn record(args: &[String]) {
             let cmd = ["version", "flow"][rng.gen_range(0..2)];
             let mut a: Vec<String> = vec![cmd.into(), "-C".into(), dir.display().to_string()];
             if rng.gen_bool(0.5) { a.push("--output-format".into()); a.push(["semver", "pep440", "zerv"][rng.gen_range(0..3)].into()); }
-            if rng.gen_bool(0.3) { a.insert(0, "-v".into()); }
-            let r = run_bin(&a, None, &[], &["RUST_LOG"], None);
+            if rng.gen_bool(0.5) { a.insert(0, "-v".into()); }
+            let env: Vec<(String, String)> = if rng.gen_bool(0.25) { vec![("RUST_LOG".into(), ["debug", "trace"][rng.gen_range(0..2)].into())] } else { vec![] };
+            let r = run_bin(&a, None, &env, if env.is_empty() { &["RUST_LOG"] } else { &[] }, None);
             return event("special", &a, &r, false, true, json!({"repository": name}));
         }
         if i % 20 == 7 {
